@@ -11,17 +11,31 @@
 (*   Which variant the code implements is never assumed; it is inferred from the conformance step.        *)
 (* Mode 2 - priors and class means are exact rationals of the labels and of integer feature data:         *)
 (*   Prior[k] = count_k / n,  Mu[k][j] = (sum of feature j over the members of class k) / count_k.        *)
-(* The discriminant itself (inverse covariance, logarithm) is floating point and is handled as a ledger   *)
-(* by TraceLda.tla.                                                                                       *)
+(* Mode 2b (round 3) - the discriminant itself, exactly, for one or two features: with W = the pooled      *)
+(*   within-class scatter, C = W^-1 (up to a positive factor) and classes k, l of EQUAL size N (the        *)
+(*   logarithms of the priors cancel) the sign of f_k(x) - f_l(x) is the sign of the INTEGER               *)
+(*     Sgn(k,l,x) = 2N (s_k - s_l)' adj(PW) x - (s_k' adj(PW) s_k - s_l' adj(PW) s_l)                      *)
+(*   (s_k = class sums, PW = P x W with P the product of the class sizes, adj = adjugate, det(PW) > 0).    *)
+(*   From it: the set of rows no equally large class beats (AdmRows), exact ties (mirror-symmetric data,   *)
+(*   K8), and the invariance clauses of C08 as theorems in exact arithmetic: Sgn is multiplied by          *)
+(*   det(A)^2 > 0 under x -> Ax + b applied to training and test data alike (AffineSgn), unchanged by any  *)
+(*   reordering of the training objects (PermSgn) and by the numbering of the classes (StartSgn).          *)
+(*   The replay may therefore RECODE a case (offsets up to 1e6, units 2^-20..2^20, grids 1/10 and 1/3:     *)
+(*   input classes K3, K4, K5) while TLC keeps judging it on the small integer coordinates.               *)
+(* Mode 1b (round 3) - confusion counts of LDAError and the one-vs-rest indicator of                       *)
+(*   LDAMulticlassStatistics as exact functions of the true and predicted label sequences.                 *)
+(* The floating-point side (inverse covariance, logarithm) is handled as a ledger by TraceLda.tla.         *)
 EXTENDS Integers, Sequences, FiniteSets, TLC, Json
 CONSTANTS MaxN,        \* label vectors of length 2..MaxN
           MaxK,        \* 2..MaxK classes
           NPat,        \* number of integer feature patterns emitted per label vector
           LabelMap     \* "plus_pos" | "plus_start"
+MapLevel == IF MaxN >= 6 THEN 2 ELSE 1      \* scopes up to 5 objects (quick tier) check half of the affine maps
 
 Range(f) == {f[i] : i \in DOMAIN f}
 MinS(S) == CHOOSE m \in S : \A v \in S : m <= v
 MaxS(S) == CHOOSE m \in S : \A v \in S : m >= v
+Abs(v) == IF v < 0 THEN 0 - v ELSE v
 
 (* ---------------------------------------------------------------- label bookkeeping (what LDA() stores) *)
 ClassStart(lab) == IF MinS(Range(lab)) = 0 THEN 0 ELSE 1
@@ -80,14 +94,105 @@ WithinScatter(lab, X) == [a \in 1..Len(X[1]) |-> [b \in 1..Len(X[1]) |-> WScat(l
 (* the property's quantifier "non-singular pooled covariance": positive definite under both readings of "pooled" *)
 NonSingular(lab, X) == Det2(TotalScatter(X)) > 0 /\ Det2(WithinScatter(lab, X)) > 0
 
+(* ---------------------------------------------------------------- the exact discriminant for one or two features *)
+Dim(X) == Len(X[1])
+Zero(d) == [j \in 1..d |-> 0]
+Adj(M) == IF Len(M) = 1 THEN << <<1>> >>
+          ELSE << <<M[2][2], 0 - M[1][2]>>, <<0 - M[2][1], M[1][1]>> >>
+Quad(u, A, v) == IF Len(u) = 1 THEN u[1] * A[1][1] * v[1]
+                 ELSE u[1] * (A[1][1] * v[1] + A[1][2] * v[2]) + u[2] * (A[2][1] * v[1] + A[2][2] * v[2])
+ClassSum(lab, X, k) == [j \in 1..Dim(X) |-> SumX(lab, X, k, j)]
+(* everything a case needs to judge predictions, computed once: class sizes, class sums, adjugate and determinant of PW *)
+Geometry(lab, X) == LET W == WithinScatter(lab, X)
+                    IN [cnt |-> [k \in 1..NClass(lab) |-> Count(lab, k - 1)],
+                        sum |-> [k \in 1..NClass(lab) |-> ClassSum(lab, X, k - 1)],
+                        adj |-> Adj(W), det |-> Det2(W), np |-> Len(lab) * CountProd(lab)]
+(* sign of f_k(x) - f_l(x) for rows k, l (0-based) of equal size; 0 = exact tie *)
+SgnG(g, k, l, x) == LET sk == g.sum[k + 1]  sl == g.sum[l + 1]
+                    IN 2 * g.cnt[k + 1] * Quad([j \in 1..Len(x) |-> sk[j] - sl[j]], g.adj, x)
+                       - (Quad(sk, g.adj, sk) - Quad(sl, g.adj, sl))
+Sgn(lab, X, k, l, x) == SgnG(Geometry(lab, X), k, l, x)
+(* f_k - f_l = np * Sgn / (2 N^2 det): |f_k - f_l| >= |Sgn| / DQuot, DQuot = ceiling of 2 N^2 det / np *)
+DQuot(g, k) == ((2 * g.cnt[k + 1] * g.cnt[k + 1] * g.det) \div g.np) + 1
+(* row l BEATS row k at x by at least `margin` discriminant units (margin = 0: strictly) *)
+BeatsG(g, l, k, x, margin) == /\ g.cnt[l + 1] = g.cnt[k + 1]
+                              /\ SgnG(g, l, k, x) > 0
+                              /\ (margin = 0 \/ SgnG(g, l, k, x) \div DQuot(g, k) >= margin)
+(* rows that no equally large class beats: the prediction must be one of them (a necessary condition, any class sizes) *)
+AdmRowsG(g, K, x, margin) == {k \in 0..(K - 1) : \A l \in 0..(K - 1) : l = k \/ ~BeatsG(g, l, k, x, margin)}
+AdmRows(lab, X, x) == AdmRowsG(Geometry(lab, X), NClass(lab), x, 0)
+
+(* ---------------------------------------------------------------- affine maps, permutations, renumbering (exact) *)
+MapV(m, x) == IF Len(x) = 1 THEN <<m.A[1][1] * x[1] + m.b[1]>>
+              ELSE <<m.A[1][1] * x[1] + m.A[1][2] * x[2] + m.b[1], m.A[2][1] * x[1] + m.A[2][2] * x[2] + m.b[2]>>
+MapX(m, X) == [i \in 1..Len(X) |-> MapV(m, X[i])]
+DetA(m) == Det2(m.A)
+Maps1 == {[A |-> << <<a>> >>, b |-> <<s>>] : a \in {1, -1, 2, 3}, s \in {0, 7}}
+Maps2 == {[A |-> M, b |-> s] : M \in { << <<1, 0>>, <<0, 1>> >>, << <<0, 1>>, <<1, 0>> >>, << <<1, 1>>, <<0, 1>> >>,
+                                       << <<2, 0>>, <<0, 2>> >>, << <<1, 0>>, <<0, -1>> >>, << <<2, 1>>, <<1, 1>> >> },
+                                s \in { <<0, 0>>, <<3, -5>> }}
+(* level 1: every matrix once, shifted or not in turn *)
+Maps1L == {m \in Maps1 : (m.b[1] = 0) = (m.A[1][1] > 1)}
+Maps2L == {m \in Maps2 : (m.b[1] = 0) = (m.A[1][2] = 1 /\ m.A[2][1] = 0)}
+Maps(d) == IF d = 1 THEN (IF MapLevel = 1 THEN Maps1L ELSE Maps1) ELSE (IF MapLevel = 1 THEN Maps2L ELSE Maps2)
+Reverse(s) == [i \in 1..Len(s) |-> s[Len(s) + 1 - i]]
+Rotate(s) == [i \in 1..Len(s) |-> s[(i % Len(s)) + 1]]
+Relabel(lab, delta) == [i \in 1..Len(lab) |-> lab[i] + delta]
+
+(* ---------------------------------------------------------------- recodings the replay may apply (K3, K4, K5) *)
+(* real value = (integer + off[j]) * mul / den ; TLC keeps judging on the integers: justified by AffineSgn / MeanEquivariant *)
+Recodes == << [off |-> 0, mul |-> 1, den |-> 1],                       \* identity
+              [off |-> 1000, mul |-> 1, den |-> 1],                    \* K3 offsets: |mean| / spread ~ 1e3 .. 1e6
+              [off |-> 100000, mul |-> 1, den |-> 1],
+              [off |-> 1000000, mul |-> 1, den |-> 1],
+              [off |-> 0, mul |-> 1024, den |-> 1],                    \* K4 units 2^10, 2^20, 2^-10, 2^-20
+              [off |-> 0, mul |-> 1048576, den |-> 1],
+              [off |-> 0, mul |-> 1, den |-> 1024],
+              [off |-> 0, mul |-> 1, den |-> 1048576],
+              [off |-> 0, mul |-> 1, den |-> 10],                      \* K5 non-representable grids 1/10, 1/3
+              [off |-> 0, mul |-> 1, den |-> 3],
+              [off |-> 100000, mul |-> 1, den |-> 1024],               \* K3 x K4
+              [off |-> 1000, mul |-> 1, den |-> 10] >>
+RecodeSet == Range(Recodes)
+(* discriminant margin below which a recoded (floating-point) run may legitimately order two classes differently: none for *)
+(* the identity and the exact sub-unit grids, one unit as soon as offsets (cancellation ~ eps d off^2) or the pseudo-inverse *)
+(* branch of LDA() (units >= 2^10) are involved                                                                     *)
+RecodeMargin(rc) == IF rc.off = 0 /\ rc.mul = 1 THEN 0 ELSE 1
+(* the j-th feature gets offset off, -2 off, ... alternating sign so that the offsets are not collinear with (1,..,1) *)
+OffsetOf(rc, j) == IF j = 1 THEN rc.off ELSE 0 - 2 * rc.off
+
+(* ---------------------------------------------------------------- mirror-symmetric data: exact ties (K8) *)
+MemberSeq(lab, k) == LET S == Members(lab, k)
+                         F[m \in 0..Cardinality(S)] ==
+                           IF m = 0 THEN <<>> ELSE Append(F[m - 1], MinS(S \ Range(F[m - 1])))
+                     IN F[Cardinality(S)]
+IsMirror(lab, X) == /\ NClass(lab) >= 2 /\ Count(lab, 0) = Count(lab, 1)
+                    /\ \A r \in 1..Count(lab, 0) : \A j \in 1..Dim(X) :
+                         X[MemberSeq(lab, 1)[r]][j] = 0 - X[MemberSeq(lab, 0)[r]][j]
+MirrorX(m, K, ord, pat, start) ==
+  LET n == m * K
+      cls(i) == IF ord = "blocks" THEN (i - 1) \div m ELSE IF ord = "desc" THEN K - 1 - ((i - 1) \div m) ELSE (i - 1) % K
+      rnk(i) == IF ord = "inter" THEN ((i - 1) \div K) + 1 ELSE ((i - 1) % m) + 1
+      pt(r) == Feat(pat, r + 1)
+      d == Len(pt(1))
+  IN [lab |-> [i \in 1..n |-> cls(i) + start],
+      X |-> [i \in 1..n |-> [j \in 1..d |-> IF cls(i) = 0 THEN pt(rnk(i))[j]
+                                            ELSE IF cls(i) = 1 THEN 0 - pt(rnk(i))[j] ELSE pt(rnk(i))[j] + 9]]]
+
 VARIABLES lab, X
 vars == <<lab, X>>
 Surj(f, S) == \A v \in S : \E i \in DOMAIN f : f[i] = v
-Init == \E n \in 2..MaxN, start \in {0, 1}, K \in 2..MaxK, pat \in 1..NPat :
-          /\ lab \in [1..n -> start..(start + K - 1)]
-          /\ Surj(lab, start..(start + K - 1))
-          /\ X = [i \in 1..n |-> Feat(pat, i)]
-          /\ NonSingular(lab, X)               \* cases outside the quantifier are not generated
+InitPat == \E n \in 2..MaxN, start \in {0, 1}, K \in 2..MaxK, pat \in 1..NPat :
+             /\ lab \in [1..n -> start..(start + K - 1)]
+             /\ Surj(lab, start..(start + K - 1))
+             /\ X = [i \in 1..n |-> Feat(pat, i)]
+             /\ NonSingular(lab, X)               \* cases outside the quantifier are not generated
+InitMirror == \E K \in 2..MaxK, m \in 2..(MaxN \div 2), start \in {0, 1}, ord \in {"blocks", "desc", "inter"}, pat \in 1..3 :
+                /\ m * K <= MaxN
+                /\ lab = MirrorX(m, K, ord, pat, start).lab
+                /\ X = MirrorX(m, K, ord, pat, start).X
+                /\ NonSingular(lab, X)
+Init == InitPat \/ InitMirror
 Next == UNCHANGED vars
 Spec == Init /\ [][Next]_vars
 
@@ -118,10 +223,90 @@ MeansGiveGrandMean == \A j \in 1..Len(X[1]) :
                         LET F[k \in 0..NClass(lab)] == IF k = 0 THEN 0 ELSE F[k - 1] + SumX(lab, X, k - 1, j)
                         IN F[NClass(lab)] = SumAll(X, j, Len(X))
 
+(* ---------------------------------------------------------------- theorems about the exact discriminant (round 3) *)
+(* test points of a case: its training objects, the origin, and first + last training object *)
+ExtraTests(l, Y) == << Zero(Dim(Y)), [j \in 1..Dim(Y) |-> Y[1][j] + Y[Len(Y)][j]] >>
+TestPoints(l, Y) == Range(Y) \cup Range(ExtraTests(l, Y))
+EqualPairs(l) == {p \in Rows(l) \X Rows(l) : p[1] # p[2] /\ Count(l, p[1]) = Count(l, p[2])}
+(* f_k - f_l = -(f_l - f_k); differences add up along chains of equally large classes (they are differences of ONE score) *)
+SgnAntisymmetricG(g) == \A p \in EqualPairs(lab), x \in TestPoints(lab, X) : SgnG(g, p[1], p[2], x) = 0 - SgnG(g, p[2], p[1], x)
+SgnAdditiveG(g) == \A p \in EqualPairs(lab), m \in Rows(lab), x \in TestPoints(lab, X) :
+                     (m # p[1] /\ m # p[2] /\ Count(lab, m) = Count(lab, p[1])) =>
+                       SgnG(g, p[1], p[2], x) + SgnG(g, p[2], m, x) = SgnG(g, p[1], m, x)
+(* hence some row is never beaten: a prediction satisfying the statement always exists *)
+AdmissibleExistsG(g) == \A x \in TestPoints(lab, X) : AdmRowsG(g, NClass(lab), x, 0) # {}
+(* K8: mirror-symmetric classes tie exactly at the centre of symmetry: rows 0 and 1 are admissible together or not at all *)
+MirrorTieG(g) == IsMirror(lab, X) => /\ SgnG(g, 0, 1, Zero(Dim(X))) = 0
+                                     /\ {0, 1} \cap AdmRowsG(g, NClass(lab), Zero(Dim(X)), 0) \in {{0, 1}, {}}
+(* one invariant, one evaluation of the geometry per state *)
+DiscTheorems == LET g == Geometry(lab, X) IN
+                /\ g.det > 0 /\ g.np > 0
+                /\ SgnAntisymmetricG(g) /\ SgnAdditiveG(g) /\ AdmissibleExistsG(g) /\ MirrorTieG(g)
+(* C08, affine clause, in exact arithmetic: x -> Ax + b on training and test data multiplies every score difference's integer *)
+(* numerator AND the determinant of PW by det(A)^2 > 0: the differences themselves, hence the admissible rows, are unchanged  *)
+AffineSgn == LET g == Geometry(lab, X)   K == NClass(lab)   pts == TestPoints(lab, X)   eq == EqualPairs(lab) IN
+             \A m \in Maps(Dim(X)) :
+               LET g2 == Geometry(lab, MapX(m, X))   c == DetA(m) * DetA(m) IN
+               /\ c > 0 /\ g2.det = c * g.det
+               /\ \A x \in pts :
+                    /\ \A p \in eq : SgnG(g2, p[1], p[2], MapV(m, x)) = c * SgnG(g, p[1], p[2], x)
+                    /\ AdmRowsG(g2, K, MapV(m, x), 0) = AdmRowsG(g, K, x, 0)
+(* priors do not see the features; class means are mapped like the objects: Mu' = A Mu + b *)
+MeanEquivariant == \A m \in Maps(Dim(X)), k \in Rows(lab) :
+                     LET cs == ClassSum(lab, X, k)   n == Count(lab, k)
+                         img == MapV([A |-> m.A, b |-> [j \in 1..Dim(X) |-> n * m.b[j]]], cs)      \* A s_k + n b
+                     IN \A j \in 1..Dim(X) : SumX(lab, MapX(m, X), k, j) = img[j]
+(* C08, reordering clause: reversing or rotating the training objects changes neither priors, means nor any score difference *)
+PermSgn == LET g == Geometry(lab, X)   K == NClass(lab) IN
+           \A f \in {"rev", "rot"} :
+             LET l2 == IF f = "rev" THEN Reverse(lab) ELSE Rotate(lab)
+                 X2 == IF f = "rev" THEN Reverse(X) ELSE Rotate(X)
+                 g2 == Geometry(l2, X2)
+             IN /\ g2 = g
+                /\ \A k \in Rows(lab) : /\ REq(Prior(l2, k), Prior(lab, k))
+                                        /\ \A j \in 1..Dim(X) : REq(Mu(l2, X2, k, j), Mu(lab, X, k, j))
+                /\ \A x \in TestPoints(lab, X) : AdmRowsG(g2, K, x, 0) = AdmRowsG(g, K, x, 0)
+(* C08, "numbered from 0 or from 1": renumbering moves the labels, not the rows *)
+StartSgn == LET delta == IF ClassStart(lab) = 0 THEN 1 ELSE -1
+                l2 == Relabel(lab, delta)
+            IN /\ ClassStart(l2) = 1 - ClassStart(lab) /\ NClass(l2) = NClass(lab)
+               /\ Geometry(l2, X) = Geometry(lab, X)
+               /\ \A k \in Rows(lab) : LabelOf(l2, k) = LabelOf(lab, k) + delta
+
+(* ---------------------------------------------------------------- confusion counts (LDAError) and one-vs-rest indicators *)
+(* truth, pred: sequences of labels of equal length; row k stands for label k + start *)
+CountIf(P(_), n) == Cardinality({i \in 1..n : P(i)})
+Confusion(truth, pred, start, k) ==
+  LET v == k + start   n == Len(truth)
+  IN [tp |-> CountIf(LAMBDA i : truth[i] = v /\ pred[i] = v, n),
+      fn |-> CountIf(LAMBDA i : truth[i] = v /\ pred[i] # v, n),
+      fp |-> CountIf(LAMBDA i : truth[i] # v /\ pred[i] = v, n),
+      tn |-> CountIf(LAMBDA i : truth[i] # v /\ pred[i] # v, n)]
+Ratio(a, b) == IF b = 0 THEN <<0, 1>> ELSE <<a, b>>           \* the library's convention: 0 when the denominator vanishes
+Sens(c) == Ratio(c.tp, c.tp + c.fn)
+Specif(c) == Ratio(c.tn, c.tn + c.fp)
+Ppv(c) == Ratio(c.tp, c.tp + c.fp)
+Npv(c) == Ratio(c.tn, c.fn + c.tn)
+Acc(c) == Ratio(c.tp + c.tn, c.tp + c.tn + c.fp + c.fn)
+(* every object falls in exactly one cell per class; perfect predictions have no false cells *)
+ConfusionPartition(truth, pred, start, K) ==
+  \A k \in 0..(K - 1) : LET c == Confusion(truth, pred, start, k) IN c.tp + c.fn + c.fp + c.tn = Len(truth)
+ConfusionModel == /\ ConfusionPartition(lab, lab, ClassStart(lab), NClass(lab))
+                  /\ ConfusionPartition(lab, Reverse(lab), ClassStart(lab), NClass(lab))
+                  /\ \A k \in Rows(lab) : LET c == Confusion(lab, lab, ClassStart(lab), k)
+                                          IN c.fn = 0 /\ c.fp = 0 /\ c.tp = Count(lab, k) /\ REq(Sens(c), <<1, 1>>) /\ REq(Acc(c), <<1, 1>>)
+                  /\ \A k \in Rows(lab) : LET c == Confusion(lab, Reverse(lab), ClassStart(lab), k)
+                                          IN c.tp + c.fn = Count(lab, k) /\ c.tp + c.fp = Count(lab, k)
+
 (* ---------------------------------------------------------------- GEN: one replay case per state *)
 Balanced(l) == \A a, b \in Rows(l) : Count(l, a) = Count(l, b)
-Emit == PrintT("@@" \o ToJson([lab |-> lab, X |-> X, start |-> ClassStart(lab), K |-> NClass(lab),
+(* the recoding assigned to a case: a function of the state, so that the assignment is TLC's and spreads over all recodings *)
+RecodeIndex(l, Y) == LET F[i \in 0..Len(l)] == IF i = 0 THEN Len(l) ELSE F[i - 1] + i * l[i] + Y[i][1] * Y[i][1]
+                     IN (F[Len(l)] % (Len(Recodes) - 1)) + 2
+Emit == PrintT("@@" \o ToJson([lab |-> lab, X |-> X, T |-> ExtraTests(lab, X), start |-> ClassStart(lab), K |-> NClass(lab),
                               balanced |-> IF Balanced(lab) THEN 1 ELSE 0,
+                              mirror |-> IF IsMirror(lab, X) THEN 1 ELSE 0,
+                              rc |-> Recodes[RecodeIndex(lab, X)],
                               prior |-> [k \in 1..NClass(lab) |-> Prior(lab, k - 1)],
                               mu |-> [k \in 1..NClass(lab) |-> [j \in 1..Len(X[1]) |-> Mu(lab, X, k - 1, j)]]]))
 ====
